@@ -30,9 +30,12 @@ package bfe_http
 //   F4  every truncation of a set of base streams
 //   F5  every byte value substituted / inserted at every offset of the head of base streams
 //
-// Violation signatures are computed from a line-minimised version of the offending request
-// (header lines are deleted while the same kind of violation at the same request persists), so
-// that one root cause gets one signature however many unrelated lines surround it.
+// Violation signatures are computed from a minimised version of the offending stream (the bytes
+// after the header section and runs of 1..3 header lines are deleted while some violation at
+// the same request persists), so that one root cause gets one signature however many unrelated
+// lines surround it. Signature = input class (must-reject classes, or the leniencies the
+// reference needed) ":" outcome kind (accepted-<bfe's framing> | names-differ | framing-differs |
+// header-map-differs | content-length-kept-beside-chunked | request-from-nothing).
 
 import (
 	"bytes"
